@@ -1,6 +1,75 @@
 package main
 
+// Replay of counter-models on the real code.
+//
+// A harness is an in-package Go test template /verif/replay/<function short key>.go.tmpl. It is injected into the
+// package of the function with `go test -overlay` (nothing is written to /repo), receives the scalar values of the
+// solver's model as JSON (env GOVC_MODEL) and the name of the failed obligation (env GOVC_OBLIGATION), builds concrete
+// inputs from them, runs the REAL function and prints REPLAY-CONFIRMED when the real code exhibits the violation.
+
+import (
+	"encoding/json"
+	"fmt"
+	"os"
+	"os/exec"
+	"path/filepath"
+	"regexp"
+	"strings"
+)
+
+var modelDef = regexp.MustCompile(`\(define-fun\s+(\S+)\s+\(\)\s+(Int|Bool)\s+(\(-\s*\d+\)|[^\s()]+)\s*\)`)
+
+func parseModelScalars(model string) map[string]string {
+	m := map[string]string{}
+	flat := strings.Join(strings.Fields(model), " ")
+	for _, mm := range modelDef.FindAllStringSubmatch(flat, -1) {
+		v := mm[3]
+		if strings.HasPrefix(v, "(-") {
+			v = "-" + strings.TrimSpace(strings.Trim(v[2:], "() "))
+		}
+		m[mm[1]] = v
+	}
+	return m
+}
+
 func runReplayHarness(verif, repo, prop string, o *Obligation, rec map[string]interface{}) bool {
-	rec["replay"] = "no replay harness for this function; the failed obligation and the solver output are recorded instead"
-	return false
+	short := shortKey(o.Fn)
+	tmpl := filepath.Join(verif, "replay", short+".go.tmpl")
+	if _, err := os.Stat(tmpl); err != nil {
+		rec["replay"] = "no replay harness for " + short + "; the failed obligation and the solver output are recorded instead"
+		return false
+	}
+	// package directory of the function
+	pkgPath := o.Fn
+	if i := strings.Index(pkgPath, ")"); i >= 0 {
+		pkgPath = strings.TrimLeft(pkgPath[:i], "(*")
+	}
+	pkgPath = pkgPath[:strings.LastIndex(pkgPath, ".")]
+	rel := strings.TrimPrefix(strings.TrimPrefix(pkgPath, modulePath), "/")
+	dir, err := os.MkdirTemp("", "govc-replay-")
+	if err != nil {
+		return false
+	}
+	defer os.RemoveAll(dir)
+	scalars := parseModelScalars(o.Model)
+	mb, _ := json.Marshal(scalars)
+	mfile := filepath.Join(dir, "model.json")
+	os.WriteFile(mfile, mb, 0o644)
+	ov := map[string]map[string]string{"Replace": {filepath.Join(repo, rel, "zz_govc_replay_test.go"): tmpl}}
+	ob, _ := json.Marshal(ov)
+	ovfile := filepath.Join(dir, "overlay.json")
+	os.WriteFile(ovfile, ob, 0o644)
+	target := "./" + rel
+	if rel == "" {
+		target = "."
+	}
+	cmd := exec.Command("bash", "-c", fmt.Sprintf("ulimit -v 8000000; cd %s && go test -overlay %s -vet=off -timeout 60s -count=1 -run '^TestGovcReplay$' -v %s", repo, ovfile, target))
+	cmd.Env = append(os.Environ(), "GOFLAGS=-mod=mod", "GOPROXY=off", "GOSUMDB=off", "GOTOOLCHAIN=local", "GOVC_MODEL="+mfile, "GOVC_OBLIGATION="+o.Name)
+	out, _ := cmd.CombinedOutput()
+	text := string(out)
+	if len(text) > 6000 {
+		text = text[:3000] + "\n...\n" + text[len(text)-3000:]
+	}
+	rec["replay"] = map[string]interface{}{"harness": strings.TrimPrefix(tmpl, verif+"/"), "model_scalars": scalars, "command": "go test -overlay <harness as zz_govc_replay_test.go> -run TestGovcReplay " + target, "output": text}
+	return strings.Contains(string(out), "REPLAY-CONFIRMED")
 }
